@@ -11,7 +11,7 @@ two the way the code does: `runner.call` asks the context it is given for
 nothing remembered between calls - and hands the result to `choose_overload`.
 
 A history is a list of operations on a forest of contexts; the state after a history
-is plain data (`St`), and the outcome of a call made at some moment is
+is plain data (`St`); contexts are plain, `MultiContext`s or `LinkedContext`s, and the outcome of a call made at some moment is
 `resolveAt` of the state at that moment.
 -/
 namespace Yaql.ResolveCtx
@@ -71,8 +71,20 @@ inductive Op where
   | register (i : Nat) (fname : CName) (fid : Fid) (x : Bool)
   /-- `ctxs[i].delete_function(fd)` -/
   | delete (i : Nat) (fname : CName) (fid : Fid)
+  /-- `MultiContext([ctxs[m] for m in ms])` -/
+  | multi (ms : List Nat)
+  /-- `LinkedContext(ctxs[p] or None, ctxs[t])` -/
+  | linked (p : Option Nat) (t : Nat)
 
 def St.ctx (st : St) (i : Nat) : Option Shape := st.ctxs[i]?
+
+/-- the shapes behind a list of handles; `none` when one of them does not exist -/
+def St.ctxAll (st : St) : List Nat → Option (List Shape)
+  | [] => some []
+  | i :: is =>
+      match st.ctx i, st.ctxAll is with
+      | some s, some ss => some (s :: ss)
+      | _, _ => none
 
 def step (st : St) : Op → St
   | .root => { cells := st.cells ++ [{}], ctxs := st.ctxs ++ [.plain st.cells.length none] }
@@ -92,6 +104,20 @@ def step (st : St) : Op → St
       match st.ctx i with
       | none => st
       | some s => { st with cells := Yaql.Context.deleteFunction st.cells s fname fid }
+  | .multi ms =>
+      match st.ctxAll ms with
+      | none => st
+      | some ss => { st with ctxs := st.ctxs ++ [Yaql.Context.mkMulti ss] }
+  | .linked p t =>
+      match st.ctx t with
+      | none => st
+      | some ts =>
+          match p with
+          | none => { st with ctxs := st.ctxs ++ [Yaql.Context.mkLinked none ts] }
+          | some pi =>
+              match st.ctx pi with
+              | none => st
+              | some ps => { st with ctxs := st.ctxs ++ [Yaql.Context.mkLinked (some ps) ts] }
 
 def run (st : St) (ops : List Op) : St := ops.foldl step st
 
